@@ -714,11 +714,13 @@ class Engine:
         if bad and nice:
             # ask for a nicer model: all rational inputs on a decimal grid (decimal-flavoured ones only when a
             # stub left hints, which typically ask for non-decimal values of the others)
-            for digits in (3, 9, 30):
+            attempts = [(d, True) for d in (3, 9, 30)] if hinted else []
+            attempts += [(d, False) for d in (3, 9, 30)]
+            for digits, with_hints in attempts:
                 cons = [z3.IsInt(var * (10 ** digits))
                         for (kind, var, flav) in self.inputs.values()
-                        if kind == 'rat' and (flav == 'dec' or not hinted)]
-                r, m2 = self._query(([extra] if extra is not None else []) + hinted + cons,
+                        if kind == 'rat' and (flav == 'dec' or not with_hints)]
+                r, m2 = self._query(([extra] if extra is not None else []) + (hinted if with_hints else []) + cons,
                                     min(self.feas_ms, 1000))
                 if r == 'sat':
                     out = {}
@@ -726,7 +728,7 @@ class Engine:
                         v = z3_to_py(m2.eval(var, model_completion=True))
                         out[name] = enc_num(v) if (v is not None and not _too_long(v)) else None
                     out['_nice'] = True
-                    if hinted:
+                    if with_hints:
                         out['_hinted'] = True
                     return out, m2
             out['_unrepresentable'] = True
